@@ -62,7 +62,12 @@ CompoundFacts(o) ==
   [members_byte_identical |-> ToSet(o.read) = ToSet(o.files) /\ Len(o.read) = Len(o.files),
    names_listed |-> ToSet(o.names) = {o.files[i][1] : i \in DOMAIN o.files} /\ Len(o.names) = Len(o.files),
    lengths |-> \A i \in DOMAIN o.lengths : \E j \in DOMAIN o.files :
-                   o.files[j][1] = o.lengths[i][1] /\ o.lengths[i][2] * 2 = Len(o.files[j][2])]
+                   o.files[j][1] = o.lengths[i][1] /\ o.lengths[i][2] * 2 = Len(o.files[j][2]),
+   \* a member positioned from its end (seek(-k, 2)): [name, position told, bytes before it, bytes from it on]
+   from_the_end |-> \A i \in DOMAIN o.ends : \E j \in DOMAIN o.files :
+                   /\ o.files[j][1] = o.ends[i][1]
+                   /\ o.ends[i][3] \o o.ends[i][4] = o.files[j][2]
+                   /\ Len(o.ends[i][3]) = 2 * o.ends[i][2]]
 
 AllTrue(F) == \A k \in DOMAIN F : F[k]
 Facts(o) == CASE o.kind = "map" -> MapFacts(o)
